@@ -20,10 +20,19 @@ import Cx.Proofs.FastCex
     `unicode.SimpleFold` (the model's parameter `hasFold` is `true` at least on the ASCII letters, the only runes the
     reference matcher folds), `RefDepthOK re` is the depth (32) up to which the reference matcher's fuel estimate sees the
     pattern.  Both are shown necessary by `decide` witnesses (`branchDispatch_foldSound_needed`, `branchDispatch_depth_needed`).
-  * ExtractFirstBytes: the predicate still accepts more than the fragment (case folding, Latin-1 runes used as bytes,
-    …); the hypothesis the proof forced is the defect, and a `decide`-checked counterexample theorem is kept in
-    `Cx.Proofs.FastCex` (each replayed on the real code by the C19 check → known findings).  Hence the `_partial` name
-    there.
+  * ExtractFirstBytes (the O(1) first-byte rejection filter of start-anchored patterns): after the fix of
+    nfa/firstbytes.go (whole `unicode.SimpleFold` orbit of a `FoldCase` literal, UTF-8 lead byte of a non-ASCII literal,
+    every byte `≥ 0x80` for a class reaching above U+007F) the former restrictions of the fragment to case-sensitive,
+    ASCII patterns are gone (`firstBytes_foldCase_fixed`, `firstBytes_latin1_fixed`).  Unconditionally
+    (`C19_firstBytes_complete`): a non-nil result has `IsComplete() = true` — the flag is vacuous, it is only cleared on
+    paths that return nil — and `Count()` is the number of members.  The soundness theorem is still `_partial`: the Go
+    function answers `true` without adding a byte when the node in first position is a zero-width assertion, so the
+    fragment `fbFrag` has to exclude `\A` / `^` / `(?m)$` in first position other than as leading elements of a concatenation
+    (`^(?:a|^)`, `^(?:ab|^)+x`, `^(?m:a|$)`, `^(?:x|(^)a)`: `decide` witnesses in `Cx.Proofs.FastCex`, each replayed on
+    the real code by the C19 check → known findings) and a literal starting with U+FFFD (which `regexp` matches against
+    any ill-formed byte).  The hypothesis `OrbitSound foldOrbit` is a fact about `unicode.SimpleFold`, not a restriction
+    (`firstBytes_orbitSound_needed`); the reference matcher folds ASCII letters only, so the non-ASCII fold partners
+    (`k`/U+212A, `s`/U+017F, …) are covered by `C19_firstBytes_orbit` rather than by a `Ref` match.
   The witnesses of the fixed defects are kept in `Cx.Proofs.FastCex` as `…_fixed` theorems (pattern now rejected, or
   matcher now agrees with the reference).
   `Ref.refFind` is the general leftmost-first reference matcher over the AST (`Cx.Spec.ReRef`), validated against regexp.
@@ -102,10 +111,38 @@ theorem C19_branchDispatcher_unique (hasFold : Nat → Bool) (alt : Re) (d : Bra
   exact ⟨ms, wf, fun h => BranchDispatcher.search_eq_first d ms wf h,
     fun h i j mi mj ei ej hi hj h1 h2 => BranchDispatcher.match_unique d ms wf h i j mi mj hi hj ei ej h1 h2⟩
 
-/-- first-byte rejection filter: on the fragment `fbFrag` every match of the pattern at offset 0 starts with a byte of the set -/
-theorem C19_firstBytes_partial (re : Re) (fb : FirstByteSet) (hx : extractFirstBytes re = some fb)
-    (frag : fbFrag 21 re = true) (h : Bytes) (hb : ∀ i, h.at i < 256) (e : Nat)
-    (hm : Ref.matchAt re h 0 = some e) : fb.contains (h.at 0) = true ∧ fb.complete = true :=
-  firstBytes_filter_sound re fb hx frag h hb e hm
+/-- first-byte rejection filter, any pattern and any `foldOrbit`: a non-nil `ExtractFirstBytes` result is complete
+    (`IsComplete()` is vacuous), `Count()` is the number of bytes `Contains` accepts, and only bytes are members — so
+    `IsUseful()` is exactly "neither empty nor all 256 bytes". -/
+theorem C19_firstBytes_complete (foldOrbit : Nat → List Nat) (re : Re) (fb : FirstByteSet)
+    (hx : extractFirstBytes foldOrbit re = some fb) :
+    fb.complete = true ∧ fb.count = (List.range 256).countP fb.contains ∧ (∀ b, fb.contains b = true → b < 256) :=
+  firstBytes_complete foldOrbit re fb hx
+
+/-- first-byte rejection filter, soundness: on the fragment `fbFrag` (no zero-width assertion other than `\z` in first
+    position, no literal starting with U+FFFD) every match of the pattern at offset 0 of a NON-EMPTY haystack — of any
+    length, the empty match included — starts with a byte of the set; hence (second part) for a pattern `\A…` a
+    non-empty haystack whose first byte is not in the set has no match at all, which is the shortcut meta takes.
+    `hfo`: `foldOrbit` stands for the `unicode.SimpleFold` loop and must list at least the ASCII case variants (it does:
+    `Cx.DriverFast.simpleFoldOrbit_sound`).  `_partial`: `ExtractFirstBytes` still accepts patterns outside `fbFrag`, and
+    is unsound on them (`firstBytes_beginAnchor_counterexample`, `firstBytes_emptyBranch_counterexample`,
+    `firstBytes_endLine_counterexample`, `firstBytes_captureAnchor_counterexample` in Cx.Proofs.FastCex). -/
+theorem C19_firstBytes_partial (foldOrbit : Nat → List Nat) (hfo : OrbitSound foldOrbit) (re : Re) (fb : FirstByteSet)
+    (hx : extractFirstBytes foldOrbit re = some fb) (frag : fbFrag 21 re = true) (h : Bytes) (hb : ∀ i, h.at i < 256)
+    (hne : 0 < h.size) :
+    (∀ e, Ref.matchAt re h 0 = some e → fb.contains (h.at 0) = true) ∧
+    (∀ a rest, re.op = .concat → re.sub = a :: rest → a.op = .beginText → fb.contains (h.at 0) = false →
+      Ref.refFind re h 0 = none) :=
+  ⟨fun e hm => firstBytes_filter_sound foldOrbit hfo re fb hx frag h hb hne e hm,
+   fun a rest hop hsub ha hrej => firstBytes_reject_sound foldOrbit hfo re a rest hop hsub ha fb hx frag h hb hne hrej⟩
+
+/-- a `FoldCase` literal contributes the UTF-8 lead byte of EVERY member of the orbit the `SimpleFold` loop produces
+    (any pattern, any `foldOrbit`): this is what admits `K` (E2 84 AA) for `(?i)k` and `ſ` (C5 BF) for `(?i)s`, which
+    the ASCII-folding reference matcher cannot witness. -/
+theorem C19_firstBytes_orbit (foldOrbit : Nat → List Nat) (re : Re) (fb : FirstByteSet) (r : Nat) (rs : List Nat)
+    (hop : re.op = .literal) (hrune : re.rune = r :: rs) (hx : extractFirstBytes foldOrbit re = some fb) :
+    fb.contains (encodeFirst r) = true ∧
+    (re.foldCase = true → ∀ m ∈ foldOrbit r, fb.contains (encodeFirst m) = true) :=
+  firstBytes_literal_orbit foldOrbit re fb r rs hop hrune hx
 
 end Cx.C19
